@@ -47,6 +47,30 @@ func (c *fctx) argValue(a ast.Expr, target types.Type) (string, ast.Expr) {
 func (c *fctx) callTerm(call *ast.CallExpr) callOut {
 	callee := c.t.staticCallee(c.info, call)
 	if callee == nil {
+		// a call through a variable of function type (the values are references to top-level functions)
+		if sig, ok := c.info.Types[call.Fun].Type.Underlying().(*types.Signature); ok {
+			var co callOut
+			for i := 0; i < sig.Results().Len(); i++ {
+				rt := sig.Results().At(i).Type()
+				if isErrorType(rt) {
+					co.hasErr = true
+				} else {
+					co.nres++
+					co.resTypes = append(co.resTypes, rt)
+				}
+			}
+			f := c.expr(call.Fun)
+			var args []string
+			for i, a := range call.Args {
+				av, _ := c.argValue(a, sig.Params().At(i).Type())
+				args = append(args, av)
+			}
+			if len(args) == 0 {
+				args = []string{"()"}
+			}
+			co.term = f + " " + strings.Join(args, " ")
+			return co
+		}
 		c.fail(call, "call of a function value")
 	}
 	sig := callee.Type().(*types.Signature)
@@ -96,9 +120,19 @@ func (c *fctx) callTerm(call *ast.CallExpr) callOut {
 				co.writeback = append(co.writeback, lv)
 			}
 		}
+		if ci.usesGlobals {
+			if ci.pkg != c.fi.pkg {
+				c.fail(call, "call of %s, which reads the package-level variables of another package", callee.Name())
+			}
+			c.fi.usesGlobals = true
+			args = append([]string{"G_"}, args...)
+		}
 		if ci.usesPrims {
 			c.fi.usesPrims = true
 			args = append([]string{"P"}, args...)
+		}
+		if ci.isInit {
+			c.fail(call, "call of init")
 		}
 		co.term = c.t.qual(c.fi, ci) + " " + strings.Join(args, " ")
 		return co
